@@ -48,7 +48,7 @@ from psyclone.core import (AccessType, SymbolicMaths,
 from psyclone.errors import InternalError, LazyString
 from psyclone.psyir.backend.sympy_writer import SymPyWriter
 from psyclone.psyir.backend.visitor import VisitorError
-from psyclone.psyir.nodes import BinaryOperation, Loop
+from psyclone.psyir.nodes import BinaryOperation, Loop, Node
 
 
 # pylint: disable=too-many-lines
@@ -830,8 +830,13 @@ class DependencyTools():
                 written = {str(sig) for sig in var_accesses.all_signatures
                            if var_accesses.is_written(sig)}
                 written.difference_update(loop_vars)
+                # (Some LFRic accesses still provide their indices as
+                # strings rather than PSyIR; nothing is known about those.)
                 stale = sorted(set().union(*(
-                    used for access in var_info.all_accesses for used in
+                    used for access in var_info.all_accesses
+                    if all(isinstance(access.component_indices[idx], Node)
+                           for idx in access.component_indices.iterate())
+                    for used in
                     access.component_indices.get_subscripts_of(written))))
                 if stale:
                     self._add_message(
